@@ -171,6 +171,68 @@ Theorem C10_lists_after_restructuring_obey_nested_rules :
 Proof. exact cl_run_refines_from. Qed.
 Print Assumptions C10_lists_after_restructuring_obey_nested_rules.
 
+(* CALLBACK LISTS AT THE POINTER LEVEL: what cloneFrom builds (CLClone.v).  The copy constructor — and through it copy
+   assignment and the copies of dispatchers and queues — draws one generation and appends one new node per linked node of
+   the source, in order (CLModel.clone_chain).  For every well-formed source and destination: the result is well formed,
+   its content is the destination's followed by as many NEW nodes as the source has, the i-th new node carries the i-th
+   source node's callback and the generation drawn, and nothing of the destination is touched; copied into an empty list:
+   a well-formed list with the source's callbacks in the source's order *)
+From EV Require CLClone CLOps.
+
+Theorem C10_clone_appends_the_sources_callbacks_as_new_nodes :
+  forall ctrv, ctrv <> GenCL.removed_marker ->
+  forall ids_s src p k dst ids_d,
+    CLHeap.lchain src p ids_s -> length ids_s <= k -> CLHeap.GInv dst ids_d ->
+    let g' := clone_chain k src (hd_error ids_s) dst ctrv in
+    CLHeap.GInv g' (ids_d ++ seq (length (heap dst)) (length ids_s)) /\
+    CLOps.extends (heap dst) (heap g') /\
+    length (heap g') = length (heap dst) + length ids_s /\
+    (forall i z, nth_error ids_s i = Some z ->
+       exists nd nd', nth_error src z = Some nd /\ nth_error (heap g') (length (heap dst) + i) = Some nd' /\
+                      cb nd' = cb nd /\ ctr nd' = ctrv).
+Proof. exact CLClone.clone_chain_spec. Qed.
+Print Assumptions C10_clone_appends_the_sources_callbacks_as_new_nodes.
+
+Theorem C10_copy_of_a_list_is_a_wellformed_list_with_the_same_callbacks :
+  forall ctrv sg ids,
+    ctrv <> GenCL.removed_marker -> CLHeap.GInv sg ids ->
+    let g' := clone_chain (length (heap sg)) (heap sg) (ghead sg) empty_group ctrv in
+    CLHeap.GInv g' (seq 0 (length ids)) /\ length (heap g') = length ids /\
+    (forall i z, nth_error ids i = Some z ->
+       exists nd nd', nth_error (heap sg) z = Some nd /\ nth_error (heap g') i = Some nd' /\ cb nd' = cb nd /\ ctr nd' = ctrv).
+Proof. exact CLClone.clone_of_a_list. Qed.
+Print Assumptions C10_copy_of_a_list_is_a_wellformed_list_with_the_same_callbacks.
+
+(* swap, self-assignment and move assignment of callback lists at the level of the list objects (a list object = its node
+   group and its generation counter): swap exchanges both and touches no node and no other list — the counter travels with
+   the nodes; swap with itself, copy assignment from itself and move assignment from itself change nothing at all; move
+   assignment hands the source's nodes and its counter to the destination and leaves the source with an empty chain of its
+   own *)
+Theorem C10_list_swap_exchanges_group_and_counter :
+  forall st a b oa ob st',
+    a <> b -> get_list st a = Some oa -> get_list st b = Some ob -> swap_lists st a b = Some st' ->
+    get_list st' a = Some ob /\ get_list st' b = Some oa /\ groups st' = groups st /\
+    (forall l, l <> a -> l <> b -> get_list st' l = get_list st l).
+Proof. exact CLClone.swap_exchanges_group_and_counter. Qed.
+Print Assumptions C10_list_swap_exchanges_group_and_counter.
+
+Theorem C10_list_self_swap_and_self_assignment_are_the_identity :
+  forall W c1 c2 c3 behav rec k st l o,
+    get_list st l = Some o ->
+    step W c1 c2 c3 behav rec k st (CopyAssign l l) = Some st /\ step W c1 c2 c3 behav rec k st (MoveAssign l l) = Some st /\
+    exists st', swap_lists st l l = Some st' /\ get_list st' l = Some o /\ groups st' = groups st /\
+                (forall l', l' <> l -> get_list st' l' = get_list st l').
+Proof. exact CLClone.self_swap_and_self_assignment_are_the_identity. Qed.
+Print Assumptions C10_list_self_swap_and_self_assignment_are_the_identity.
+
+Theorem C10_list_move_assignment_hands_over_nodes_and_counter :
+  forall W c1 c2 c3 behav rec k st src dst so st',
+    src <> dst -> get_list st src = Some so -> step W c1 c2 c3 behav rec k st (MoveAssign src dst) = Some st' ->
+    get_list st' dst = Some (mkLobj (lg so) (lcur so)) /\
+    exists g, get_list st' src = Some (mkLobj g (lcur so)) /\ get_group st' g = Some empty_group.
+Proof. exact CLClone.move_assignment_hands_over_nodes_and_counter. Qed.
+Print Assumptions C10_list_move_assignment_hands_over_nodes_and_counter.
+
 Example C10_example :
   c_run_case GenCtor.eq_copy_inits_counters GenCtor.eq_copy_counters_from_source
              GenCtor.eq_move_inits_counters GenCtor.eq_move_counters_from_source (-1414812757)%Z 5%Z GenCtor.eq_copy_assign_self_safe 3
